@@ -1,6 +1,61 @@
 // C36 - era dispatch is consistent across every entry point.
 package main
 
-import "verifharness/vh"
+import (
+	"encoding/json"
+	"fmt"
+	"os"
+	"os/exec"
+	"strconv"
 
-func main() { vh.Main(vh.Runner{Property: "C36", Gen: gen, Run: run}) }
+	"verifharness/vh"
+)
+
+// `<bin> fresh <entry> <type id> [fixture]`: ONE call per fixture in a process
+// that has called nothing else (no tx extraction either, except for the
+// transaction entry point) - the history-free reference observation.
+func freshMain() {
+	entry := os.Args[2]
+	t, _ := strconv.ParseUint(os.Args[3], 10, 64)
+	fx, err := loadFixturesOpt(entry == "NewTransactionFromCbor")
+	if err != nil {
+		fmt.Fprintln(os.Stderr, err)
+		os.Exit(3)
+	}
+	out := map[string]obsAny{}
+	for i := range fx {
+		if len(os.Args) > 4 && fx[i].Name != os.Args[4] {
+			continue
+		}
+		out[fx[i].Name] = callEntry(entry, uint(t), &fx[i])
+	}
+	json.NewEncoder(os.Stdout).Encode(out)
+}
+
+// fresh runs this binary as a new process.
+func fresh(entry string, t uint64, fixture string) (map[string]obsAny, error) {
+	exe, err := os.Executable()
+	if err != nil {
+		return nil, err
+	}
+	args := []string{"fresh", entry, strconv.FormatUint(t, 10)}
+	if fixture != "" {
+		args = append(args, fixture)
+	}
+	cmd := exec.Command(exe, args...)
+	cmd.Env = os.Environ()
+	b, err := cmd.Output()
+	if err != nil {
+		return nil, err
+	}
+	var out map[string]obsAny
+	return out, json.Unmarshal(b, &out)
+}
+
+func main() {
+	if len(os.Args) >= 4 && os.Args[1] == "fresh" {
+		freshMain()
+		return
+	}
+	vh.Main(vh.Runner{Property: "C36", Gen: gen, Run: run})
+}
